@@ -158,11 +158,16 @@ def check_mapping(ctx):
     prog = ctx.prog
     fn = prog.method("BaseMAB", "_get_cold_arm_to_warm_arm")
     ctx.saw_fn(fn)
-    outer = [s for s in fn.node.body if isinstance(s, ast.For)]
+    # the loop over the cold arms (possibly under a guard on the trained arms: with no trained arm every candidate
+    # set is empty and the mapping is empty either way)
+    outer = [s for s in ast.walk(fn.node) if isinstance(s, ast.For) and
+             " ".join(ast.unparse(_inline(fn.node, s.iter)).split()) == "self.cold_arms"]
     ok = False
     detail = ""
-    rets = [s for s in fn.node.body if isinstance(s, ast.Return)]
-    mapname = rets[-1].value.id if rets and isinstance(rets[-1].value, ast.Name) else None
+    rets = [s for s in ast.walk(fn.node) if isinstance(s, ast.Return) and isinstance(s.value, ast.Name)]
+    other_rets = [s for s in ast.walk(fn.node) if isinstance(s, ast.Return) and not isinstance(s.value, ast.Name)]
+    mapname = rets[-1].value.id if rets and len({r.value.id for r in rets}) == 1 and all(
+        s.value is not None and ast.unparse(s.value) in ("{}", "dict()") for s in other_rets) else None
     if outer and mapname and len(fn.params) >= 3:
         lo = outer[0]
         cold = ast.unparse(lo.target)
@@ -185,14 +190,24 @@ def check_mapping(ctx):
                 fresh = [s for s in ast.walk(lo) if isinstance(s, ast.Assign) and ast.unparse(s.targets[0]) == cand]
                 ok_inner = ok_inner and len(fresh) == 1 and ast.unparse(fresh[0].value) in ("{}", "dict()") and \
                     fresh[0].lineno < pos
-        closest = "argmin(%s)" % cand
-        dist = "%s[%s][%s]" % (dft, cold, closest)
         guards = [s for s in ast.walk(lo) if isinstance(s, ast.If) and any(
             isinstance(x, ast.Assign) and ast.unparse(x.targets[0]) == "%s[%s]" % (mapname, cold) for x in s.body)]
         stores = [x for x in ast.walk(fn.node) if isinstance(x, ast.Assign) and isinstance(x.targets[0], ast.Subscript)
                   and ast.unparse(x.targets[0].value) == mapname]
-        ok_sel = cand is not None and len(stores) == 1 and len(guards) == 1 and T(stores[0].value) == closest
-        ok_guard = ok_sel and T(guards[0].test) in ("%s <= %s" % (dist, thr), "%s >= %s" % (thr, dist)) and \
+        closest_forms = ["argmin(%s)" % cand, "min(%s, key=%s.get)" % (cand, cand)] if cand is not None else []
+        got = T(stores[0].value) if len(stores) == 1 else None
+        ok_sel = cand is not None and len(stores) == 1 and len(guards) == 1 and got in closest_forms
+        if cand is None and len(stores) == 1 and len(guards) == 1:
+            # form C: no candidate dictionary, the closest arm is min(<trained arms>, key=<distances of the cold arm>.get)
+            from .pattern import match
+            mb = match("min(_ES_, key=_ED_.get)", ast.parse(got, mode="eval").body)
+            if mb is not None and _subset_of_trained(ast.parse(mb["_ES_"], mode="eval").body) and \
+                    " ".join(mb["_ED_"].split()) == "%s[%s]" % (dft, cold):
+                ok_inner = ok_sel = True
+                closest_forms = [got]
+        dists = ["%s[%s][%s]" % (dft, cold, got)] + (["%s[%s]" % (cand, got)] if cand is not None else [])
+        ok_guard = ok_sel and T(guards[0].test) in [f % (d, thr) if i == 0 else f % (thr, d) for d in dists
+                                                     for i, f in enumerate(("%s <= %s", "%s >= %s"))] and \
             not guards[0].orelse
         ok = ok_outer and ok_inner and ok_sel and ok_guard
         if not ok and form is None:
